@@ -155,7 +155,12 @@ def greater (d : Backend) (inner : Shape) (outer : Oper) : Bool :=
          if i.isArithmetic || i.isShift then io.isStd (fun k => k == 30 || k == 31)
          else if isPgComparison io then outer.isLogical else false
        | _ => false)
-  | _ => greaterCommon inner outer
+  | .mysql =>
+    -- MySQL's LIKE takes a simple_expr: a binary operand keeps its parentheses
+    (match inner with
+     | .bin _ => !outer.isLike && greaterCommon inner outer
+     | _ => greaterCommon inner outer)
+  | .sqlite => greaterCommon inner outer
 
 /-- `OperLeftAssocDecider::well_known_left_associative` per backend -/
 def leftAssoc (d : Backend) (o : Op) : Bool :=
